@@ -249,6 +249,7 @@ def drive(pid, mod, tier, seed=0, only=None):
         return 2
     if only:
         jobs = [j for j in jobs if re.search(only, j.name)]
+        mod._partial_run = True
     results = run_jobs(jobs, logdir)
     known = load_known()
     byname = {r.job.name: r for r in results}
@@ -414,6 +415,14 @@ def write_evidence(pid, mod, tier, seed, results, t0, nviol, knowns=(), noverdic
     }
     if note:
         ev['coverage']['note'] = note
-    os.makedirs(os.path.join(VERIF, 'evidence'), exist_ok=True)
-    with open(os.path.join(VERIF, 'evidence', pid + '.json'), 'w') as f:
+    # partial runs (--only) and runs against another tree (VERIF_REPO, used for seeded changes) must not replace the evidence
+    # of the registered check: they write next to their build products instead
+    partial = getattr(mod, '_partial_run', False) or os.path.abspath(REPO) != '/repo'
+    if partial:
+        dest = os.path.join(BUILD, pid, 'evidence_partial.json')
+    else:
+        os.makedirs(os.path.join(VERIF, 'evidence'), exist_ok=True)
+        dest = os.path.join(VERIF, 'evidence', pid + '.json')
+    os.makedirs(os.path.dirname(dest), exist_ok=True)
+    with open(dest, 'w') as f:
         json.dump(ev, f, indent=1)
